@@ -33,6 +33,7 @@ pub const PATHS: &[(&str, &str)] = &[
     ("so", "/dev/stdout"),
     ("se", "/dev/stderr"),
     ("s", "/tmp/s"),
+    ("x", "/tmp/x"),
 ];
 
 pub fn real_path(short: &str) -> &'static str {
